@@ -198,7 +198,9 @@ def date_like(tokens, sep):
     n = len(tokens)
     for i in range(n - 4):
         w = tokens[i:i + 5]
-        if w[0][0] == 'num' and w[1] == ('op', '/') and w[2][0] == 'num' and w[3] == ('op', '/') and w[4][0] == 'num':
+        if w[0][0] in ('num', 'var') and w[1] == ('op', '/') and w[2][0] in ('num', 'var') and w[3] == ('op', '/') and w[4][0] in ('num', 'var'):
+            if w[0][0] == 'var' or w[2][0] == 'var':
+                return True                    # a variable holding a number also matches the date pattern
             d, m = val(w[0][1]), val(w[2][1])
             if d is None or m is None:
                 return True
